@@ -106,7 +106,7 @@ PROPS = {
         'level': 'proof',
         'explanation': 'SingleExecMatcher::matches (body verbatim after R9 on std::path calls): the child is started with argv = executable followed by every template argument with each {} replaced by the path (./basename under -execdir) and all other text unchanged, one argv element per argument, in the parent directory under -execdir; the action is true exactly when the child exits with status 0; MatcherIO (find\'s exit status, prune, quit) is untouched.',
         'assumptions': ['std::process::Command: arg appends one element, current_dir sets the directory, status() runs exactly that command line without a shell', 'std::path file_name/parent/join as uninterpreted functions of the path bytes',
-                        'SingleExecMatcher::new splits each argument at {} (adapter chain; str::split): assumed, bounded check planned with Kani'],
+                        'SingleExecMatcher::new (unit execnew, body verbatim: the closure of the map/collect chain keeps its body and gets an `ensures` from a rule): one template per argument, in order - an argument without {} unchanged, otherwise its pieces around every {} as str::split yields them - the executable and the -execdir flag kept; assumed: str::split("{}") (the pieces between successive occurrences, left to right), OsString::from(&str), and that args.iter().map(F).collect() yields F of each element in order'],
         'not_decided': ['that the action is evaluated once per file at that point of the evaluation is C01 (units logic/parse/walk)'],
     },
     'C10': {
